@@ -442,7 +442,7 @@ class ExtendedNonlocalGame:
                 mat[x_in, y_in] = cvxpy.Variable(
                     (alice_out * referee_dim, bob_out * referee_dim),
                     name=f"K(a, b | {x_in}, {y_in})",
-                    hermitian=True,
+                    complex=True,
                 )
 
         p_win = cvxpy.Constant(0)
